@@ -23,7 +23,10 @@ def gen_curve_cases(ctx):
         rows = [[F(rng.randint(-8, 8), 2) for _ in range(n + 1)] for _ in range(2)]
         if not io.hodograph_halfplane(rows):
             continue
-        kind = rng.choice(["on", "on", "end", "off-box", "off-near"])
+        # dimension 2, 3 or 4 (injectivity is certified on the first two coordinates)
+        for _extra in range(rng.choice([0, 0, 1, 1, 2])):
+            rows.append([F(rng.randint(-8, 8), 2) for _ in range(n + 1)])
+        kind = rng.choice(["on", "on", "end", "off-box", "off-box", "off-near"])
         if kind == "on":
             s = F(rng.randint(0, 2 ** 5), 2 ** 5)
         elif kind == "end":
@@ -32,9 +35,11 @@ def gen_curve_cases(ctx):
             s = F(rng.randint(0, 8), 8)
         p = [oq.bernstein(r, s) for r in rows]
         if kind == "off-box":
-            p = [max(rows[0]) + 1, p[1]]
+            # outside the control-point box in ONE coordinate (any of them, the last included), on the curve in the others
+            k_ = rng.randrange(len(rows))
+            p[k_] = max(rows[k_]) + 1 if rng.random() < 0.5 else min(rows[k_]) - 1
         if kind == "off-near":
-            p = [p[0] + F(1, 4), p[1] - F(1, 4)]
+            p = [p[0] + F(1, 4), p[1] - F(1, 4)] + p[2:]
         if not all(F(float(x)) == x for x in p):
             continue
         out.append({"rows": rows, "p": p, "s": s, "kind": kind, "n": n})
